@@ -239,7 +239,9 @@ class Check:
         self.assumptions = []
         self.notes = {}
         self._viol_keys = set()
-        shutil.rmtree(os.path.join(VERIF, "replays", prop), ignore_errors=True)
+        self.replaying = bool(os.environ.get("VERIF_REPLAYING"))
+        if not self.replaying:      # a replay run keeps the replay files (it is usually given one of them) ...
+            shutil.rmtree(os.path.join(VERIF, "replays", prop), ignore_errors=True)
 
     # -- coverage
     def add_tlc(self, res):
@@ -341,7 +343,9 @@ class Check:
             "wall_s": round(time.time() - self.t0, 2), "violations": len(self.violations),
         }
         os.makedirs(os.path.join(VERIF, "evidence"), exist_ok=True)
-        with open(os.path.join(VERIF, "evidence", self.prop + ".json"), "w") as f:
+        # ... and does not overwrite the evidence of the full run
+        evname = self.prop + (".replay.json" if self.replaying else ".json")
+        with open(os.path.join(VERIF, "evidence" if not self.replaying else "work", evname), "w") as f:
             json.dump(ev, f, indent=1, sort_keys=True)
         if self.violations:
             log("[%s] %d violation(s)" % (self.prop, len(self.violations)))
